@@ -90,7 +90,7 @@ class XYZ(Fmt):
 class EXTXYZ(Fmt):
     name = "extxyz"
     space = [("natom", [3, 1, 100]), ("elements", ["OHH", "two-letter"]), ("coords", ["small", "negative"]), ("cell", [False, True]), ("energy", [None, -76.5, 1e-3]), ("charge", [None, 1.0, -2.0]),
-             ("masses", [False, True]), ("forces", [False, True]), ("species", ["symbols", "Z"]), ("extra_cols", ["none", "int", "logical", "string+real3"]), ("title_extra", ["", 'config_type=bulk pbc="T T F"', "flag"])]
+             ("masses", [False, True]), ("forces", [False, True]), ("species", ["symbols", "Z"]), ("extra_cols", ["none", "int", "logical", "string+real3", "species+Z"]), ("title_extra", ["", 'config_type=bulk pbc="T T F"', "flag"])]
 
     def make(self, c, seed):
         n = c["natom"]
@@ -112,6 +112,10 @@ class EXTXYZ(Fmt):
             extra["mag"] = ("R", 3, [[0.5 * i, -0.25, 1.0 + i] for i in range(n)])
             exp_extra.append(("extra.label", [f"a{i}" for i in range(n)], None))
             exp_extra.append(("extra.mag", [[0.5 * i, -0.25, 1.0 + i] for i in range(n)], 1e-12))
+        elif c["extra_cols"] == "species+Z" and c["species"] == "symbols":
+            # the usual ASE layout: species labels next to a Z column; the numbers come from Z, the labels are kept as given
+            extra["Z"] = ("I", 1, [int(zi) for zi in z])
+            exp_extra.append(("extra.species", [writers.sym(zi) for zi in z], None))
         text = writers.extxyz(z, r, cell, c["energy"], c["charge"], masses, forces, c["title_extra"], c["species"] == "Z", extra)
         exp = [("atnums", z, None), ("atcoords", r, 1e-9)] + exp_extra
         if cell is not None:
